@@ -1,27 +1,32 @@
 #!/bin/bash
 # tools/seedrun.sh <seeded/ID/variant dir> [check ids...] : applies the seeded change to /repo, runs
-# the listed checks (default: the change's own property) in the quick tier, reverts /repo, and writes
-# result.json next to the patch. /repo must be clean.
+# the listed checks (default: the change's own property) in the quick tier (SEED_TIER overrides),
+# reverts /repo, and records exit code and VIOLATION lines in result.json next to the patch.
 set -u
 cd "$(dirname "$0")/.." || exit 2
 dir=$1; shift
 [ -f "$dir/patch.diff" ] || { echo "no patch in $dir"; exit 2; }
 if [ -n "$(git -C /repo status --porcelain)" ]; then echo "/repo is not clean"; exit 2; fi
-prop=$(python3 -c "import json,sys; print(json.load(open('$dir/meta.json'))['property'])")
+prop=$(python3 -c "import json,sys; print(json.load(open('$dir/meta.json'))['property'])" 2>/dev/null)
 checks=("$@"); [ ${#checks[@]} -eq 0 ] && checks=("$prop")
 git -C /repo apply "$PWD/$dir/patch.diff" || { echo "patch does not apply"; exit 2; }
-res="{"
+tier=${SEED_TIER:-quick}
 for id in "${checks[@]}"; do
-  tier=${SEED_TIER:-quick}
-  out=$(./check "$id" --tier "$tier" 2>&1); rc=$?
-  nviol=$(echo "$out" | grep -c '^VIOLATION')
-  first=$(echo "$out" | grep -A2 '^VIOLATION' | head -3 | tr '\n' ' ' | cut -c1-300 | sed 's/\\/\\\\/g; s/"/\\"/g')
-  echo "$dir $id rc=$rc violations=$nviol"
-  res="$res\"$id\": {\"exit\": $rc, \"violation_lines\": $nviol, \"tier\": \"$tier\", \"first\": \"$first\"},"
+  ./check "$id" --tier "$tier" > "$dir/.run.out" 2>&1; rc=$?
+  python3 - "$dir" "$id" "$rc" "$tier" <<'PY' 2>/dev/null
+import json, os, sys
+d, cid, rc, tier = sys.argv[1], sys.argv[2], int(sys.argv[3]), sys.argv[4]
+out = open(os.path.join(d, ".run.out"), errors="replace").read().splitlines()
+viol = [i for i, l in enumerate(out) if l.startswith("VIOLATION")]
+first = " ".join(x.strip() for x in out[viol[0]:viol[0]+3])[:400] if viol else ""
+p = os.path.join(d, "result.json")
+res = json.load(open(p)) if os.path.exists(p) else {}
+res[cid] = {"exit": rc, "violation_lines": len(viol), "tier": tier, "first": first, "summary": out[-1] if out else ""}
+json.dump(res, open(p, "w"), indent=1)
+print(d, cid, "rc=%d" % rc, "violations=%d" % len(viol), first[:160])
+PY
+  rm -f "$dir/.run.out"
 done
 git -C /repo checkout -- . ; git -C /repo clean -fdq
-res="${res%,}}"
-echo "$res" | python3 -c "import json,sys; d=json.load(sys.stdin); p='$dir/result.json';
-import os
-old=json.load(open(p)) if os.path.exists(p) else {}
-old.update(d); json.dump(old, open(p,'w'), indent=1)"
+# replays saved for the seeded violations are not findings of the unchanged tree
+git ls-files --others --exclude-standard replays | grep -E '^replays/C[0-9][0-9]-[0-9a-f]+\.json$' | xargs -r rm -f
